@@ -7,6 +7,8 @@ import (
 	"os"
 	"path/filepath"
 	"runtime"
+	"runtime/debug"
+	"runtime/pprof"
 	"sort"
 	"strconv"
 	"strings"
@@ -133,6 +135,16 @@ func main() {
 	if len(os.Args) < 2 {
 		fmt.Fprintln(os.Stderr, "usage: gosym run|check ...")
 		os.Exit(2)
+	}
+	// the live heap (SSA program, term tables) is large and long-lived while
+	// the per-path garbage is short-lived: collect less often
+	debug.SetGCPercent(400)
+	if pf := os.Getenv("GOSYM_CPUPROFILE"); pf != "" {
+		f, err := os.Create(pf)
+		if err == nil {
+			pprof.StartCPUProfile(f)
+			defer pprof.StopCPUProfile()
+		}
 	}
 	switch os.Args[1] {
 	case "run":
